@@ -39,6 +39,14 @@ Theorem C05_shape_reject_no_job : forall e r, submit e r = RejectedShape -> bodi
 Proof. exact rejected_shape_no_job. Qed.
 Print Assumptions C05_shape_reject_no_job.
 
+(* a request is judged alike whether the task is submitted directly or added to a workflow as a node *)
+Definition with_node (b : bool) (r : req) : req :=
+  {| r_split_called := r_split_called r; r_split := r_split r; r_vals := r_vals r; r_nonseq := r_nonseq r;
+     r_comb := r_comb r; r_task := r_task r; r_node := b |}.
+Theorem C05_node_same : forall (r : req) (b : bool), validate (with_node b r) = validate r.
+Proof. intros r b. rewrite !validate_eq. reflexivity. Qed.
+Print Assumptions C05_node_same.
+
 (* non-vacuity *)
 Example C05_example_respell :
   respell (Outer [Fld 0; Outer [Inner [Fld 1; Inner [Fld 2; Fld 3]]; Outer [Fld 4]]])
@@ -60,12 +68,14 @@ Qed.
 
 Example C05_example_validate :
   let ok := {| r_split_called := true; r_split := Some (Outer [Fld 0; Inner [Fld 1; Fld 2]]); r_vals := [2; 0; 1];
-               r_nonseq := []; r_comb := Some [1]; r_task := [0; 1; 2; 3] |} in
+               r_nonseq := []; r_comb := Some [1]; r_task := [0; 1; 2; 3]; r_node := false |} in
   validate ok = inr (Some (Outer [Fld 0; Inner [Fld 1; Fld 2]])) /\
   validate {| r_split_called := true; r_split := Some (Outer [Fld 0; Fld 0]); r_vals := [0]; r_nonseq := [];
-              r_comb := None; r_task := [0; 1] |} = inl VDup /\
+              r_comb := None; r_task := [0; 1]; r_node := true |} = inl VDup /\
   validate {| r_split_called := true; r_split := Some (Outer [Fld 0; Fld 1]); r_vals := [0; 1]; r_nonseq := [];
-              r_comb := Some [2]; r_task := [0; 1; 2] |} = inl VCombNotSplit /\
+              r_comb := Some [2]; r_task := [0; 1; 2]; r_node := true |} = inl VCombNotSplit /\
   validate {| r_split_called := false; r_split := None; r_vals := []; r_nonseq := [];
-              r_comb := Some [0]; r_task := [0; 1] |} = inl VCombNoSplit.
+              r_comb := Some [0]; r_task := [0; 1]; r_node := false |} = inl VCombNoSplit /\
+  validate {| r_split_called := false; r_split := None; r_vals := []; r_nonseq := [];
+              r_comb := Some [0]; r_task := [0; 1]; r_node := true |} = inl VCombNoSplit.
 Proof. repeat split. Qed.
